@@ -36,14 +36,19 @@ Inductive sclass :=
 | PerCall.     (* value created per call / per request, never stored on a singleton *)
 
 Definition field_table : list (string * string * string * string * sclass) := [
-  ("x/evm/keeper", "ERC20BigInt", "Value", "*big.Int", PerCall);
-  ("x/evm/keeper", "ERC20Bool", "Value", "bool", PerCall);
-  ("x/evm/keeper", "ERC20Bytes32", "Value", "[32]byte", PerCall);
-  ("x/evm/keeper", "ERC20Metadata", "Decimals", "uint8", PerCall);
-  ("x/evm/keeper", "ERC20Metadata", "Name", "string", PerCall);
-  ("x/evm/keeper", "ERC20Metadata", "Symbol", "string", PerCall);
-  ("x/evm/keeper", "ERC20String", "Value", "string", PerCall);
-  ("x/evm/keeper", "ERC20Uint8", "Value", "uint8", PerCall);
+  ("x/devgas/v1/keeper", "DevGasIndexes", "Deployer", "collections.MultiIndex[string,string,devgastypes.FeeShare]", StoreBacked);
+  ("x/devgas/v1/keeper", "DevGasIndexes", "Withdrawer", "collections.MultiIndex[string,string,devgastypes.FeeShare]", StoreBacked);
+  ("x/devgas/v1/keeper", "Keeper", "DevGasStore", "collections.IndexedMap[string,devgastypes.FeeShare,DevGasIndexes]", StoreBacked);
+  ("x/devgas/v1/keeper", "Keeper", "ModuleParams", "collections.Item[devgastypes.ModuleParams]", StoreBacked);
+  ("x/devgas/v1/keeper", "Keeper", "accountKeeper", "devgastypes.AccountKeeper", Immutable);
+  ("x/devgas/v1/keeper", "Keeper", "bankKeeper", "devgastypes.BankKeeper", Immutable);
+  ("x/devgas/v1/keeper", "Keeper", "cdc", "codec.BinaryCodec", Immutable);
+  ("x/devgas/v1/keeper", "Keeper", "storeKey", "storetypes.StoreKey", Immutable);
+  ("x/devgas/v1/keeper", "Keeper", "wasmKeeper", "wasmkeeper.Keeper", Immutable);
+  ("x/epochs/keeper", "Keeper", "Epochs", "collections.Map[string,types.EpochInfo]", StoreBacked);
+  ("x/epochs/keeper", "Keeper", "cdc", "codec.Codec", Immutable);
+  ("x/epochs/keeper", "Keeper", "hooks", "types.EpochHooks", Registry);
+  ("x/epochs/keeper", "Keeper", "storeKey", "storetypes.StoreKey", Immutable);
   ("x/evm/keeper", "EvmState", "AccState", "collections.Map[AccStatePrimaryKey,[]byte,]", StoreBacked);
   ("x/evm/keeper", "EvmState", "BlockBloom", "collections.ItemTransient[[]byte]", StoreBacked);
   ("x/evm/keeper", "EvmState", "BlockLogSize", "collections.ItemTransient[uint64]", StoreBacked);
@@ -54,63 +59,68 @@ Definition field_table : list (string * string * string * string * sclass) := [
   ("x/evm/keeper", "IndexesFunToken", "BankDenom", "collections.MultiIndex[string,[]byte,evm.FunToken]", StoreBacked);
   ("x/evm/keeper", "IndexesFunToken", "ERC20Addr", "collections.MultiIndex[gethcommon.Address,[]byte,evm.FunToken]", StoreBacked);
   ("x/evm/keeper", "Keeper", "Bank", "*NibiruBankKeeper", Immutable);
-  ("x/evm/keeper", "Keeper", "EvmState", "EvmState", StoreBacked);
-  ("x/evm/keeper", "Keeper", "FunTokens", "FunTokenState", StoreBacked);
   ("x/evm/keeper", "Keeper", "accountKeeper", "evm.AccountKeeper", Immutable);
   ("x/evm/keeper", "Keeper", "authority", "sdk.AccAddress", Immutable);
   ("x/evm/keeper", "Keeper", "cdc", "codec.BinaryCodec", Immutable);
   ("x/evm/keeper", "Keeper", "precompiles", "omap.SortedMap[gethcommon.Address,vm.PrecompiledContract]", Registry);
   ("x/evm/keeper", "Keeper", "stakingKeeper", "evm.StakingKeeper", Immutable);
   ("x/evm/keeper", "Keeper", "storeKey", "storetypes.StoreKey", Immutable);
-  ("x/evm/keeper", "Keeper", "tracer", "string", Immutable);
   ("x/evm/keeper", "Keeper", "transientKey", "storetypes.StoreKey", Immutable);
   ("x/evm/keeper", "NibiruBankKeeper", "<embedded>", "bankkeeper.BaseKeeper", Immutable);
   ("x/evm/keeper", "NibiruBankKeeper", "StateDB", "*statedb.StateDB", Guarded);
-  ("x/evm/keeper", "erc20Calls", "<embedded>", "*Keeper", PerCall);
-  ("x/evm/keeper", "erc20Calls", "ABI", "*gethabi.ABI", PerCall);
-  ("x/evm/precompile", "OnRunStartResult", "Args", "[]any", PerCall);
-  ("x/evm/precompile", "OnRunStartResult", "CacheCtx", "sdk.Context", PerCall);
-  ("x/evm/precompile", "OnRunStartResult", "Method", "*gethabi.Method", PerCall);
-  ("x/evm/precompile", "OnRunStartResult", "PrecompileJournalEntry", "statedb.PrecompileCalled", PerCall);
-  ("x/evm/precompile", "OnRunStartResult", "StateDB", "*statedb.StateDB", PerCall);
-  ("x/evm/precompile", "WasmBankCoin", "Amount", "*big.Int", PerCall);
-  ("x/evm/precompile", "WasmBankCoin", "Denom", "string", PerCall);
   ("x/evm/precompile", "Wasm", "<embedded>", "*wasmkeeper.PermissionedKeeper", Immutable);
   ("x/evm/precompile", "Wasm", "<embedded>", "wasmkeeper.Keeper", Immutable);
   ("x/evm/precompile", "precompileFunToken", "evmKeeper", "*evmkeeper.Keeper", Immutable);
   ("x/evm/precompile", "precompileOracle", "oracleKeeper", "oraclekeeper.Keeper", Immutable);
   ("x/evm/precompile", "precompileWasm", "<embedded>", "*evmkeeper.Keeper", Immutable);
-  ("x/evm/precompile", "precompileWasm", "Wasm", "Wasm", Immutable)
+  ("x/inflation/keeper", "Keeper", "CurrentPeriod", "collections.Sequence", StoreBacked);
+  ("x/inflation/keeper", "Keeper", "NumSkippedEpochs", "collections.Sequence", StoreBacked);
+  ("x/inflation/keeper", "Keeper", "Params", "collections.Item[types.Params]", StoreBacked);
+  ("x/inflation/keeper", "Keeper", "accountKeeper", "types.AccountKeeper", Immutable);
+  ("x/inflation/keeper", "Keeper", "bankKeeper", "types.BankKeeper", Immutable);
+  ("x/inflation/keeper", "Keeper", "cdc", "codec.BinaryCodec", Immutable);
+  ("x/inflation/keeper", "Keeper", "distrKeeper", "types.DistrKeeper", Immutable);
+  ("x/inflation/keeper", "Keeper", "stakingKeeper", "types.StakingKeeper", Immutable);
+  ("x/inflation/keeper", "Keeper", "storeKey", "storetypes.StoreKey", Immutable);
+  ("x/inflation/keeper", "Keeper", "sudoKeeper", "types.SudoKeeper", Immutable);
+  ("x/oracle/keeper", "Keeper", "AccountKeeper", "types.AccountKeeper", Immutable);
+  ("x/oracle/keeper", "Keeper", "ExchangeRates", "collections.Map[asset.Pair,types.ExchangeRateAtBlock]", StoreBacked);
+  ("x/oracle/keeper", "Keeper", "FeederDelegations", "collections.Map[sdk.ValAddress,sdk.AccAddress]", StoreBacked);
+  ("x/oracle/keeper", "Keeper", "MissCounters", "collections.Map[sdk.ValAddress,uint64]", StoreBacked);
+  ("x/oracle/keeper", "Keeper", "Params", "collections.Item[types.Params]", StoreBacked);
+  ("x/oracle/keeper", "Keeper", "Prevotes", "collections.Map[sdk.ValAddress,types.AggregateExchangeRatePrevote]", StoreBacked);
+  ("x/oracle/keeper", "Keeper", "PriceSnapshots", "collections.Map[collections.Pair[asset.Pair,time.Time],types.PriceSnapshot]", StoreBacked);
+  ("x/oracle/keeper", "Keeper", "RewardsID", "collections.Sequence", StoreBacked);
+  ("x/oracle/keeper", "Keeper", "Rewards", "collections.Map[uint64,types.Rewards]", StoreBacked);
+  ("x/oracle/keeper", "Keeper", "StakingKeeper", "types.StakingKeeper", Immutable);
+  ("x/oracle/keeper", "Keeper", "Votes", "collections.Map[sdk.ValAddress,types.AggregateExchangeRateVote]", StoreBacked);
+  ("x/oracle/keeper", "Keeper", "WhitelistedPairs", "collections.KeySet[asset.Pair]", StoreBacked);
+  ("x/oracle/keeper", "Keeper", "bankKeeper", "types.BankKeeper", Immutable);
+  ("x/oracle/keeper", "Keeper", "cdc", "codec.BinaryCodec", Immutable);
+  ("x/oracle/keeper", "Keeper", "distrKeeper", "types.DistributionKeeper", Immutable);
+  ("x/oracle/keeper", "Keeper", "slashingKeeper", "types.SlashingKeeper", Immutable);
+  ("x/oracle/keeper", "Keeper", "storeKey", "storetypes.StoreKey", Immutable);
+  ("x/oracle/keeper", "Keeper", "sudoKeeper", "types.SudoKeeper", Immutable);
+  ("x/sudo/keeper", "Keeper", "Sudoers", "collections.Item[sudotypes.Sudoers]", StoreBacked);
+  ("x/tokenfactory/keeper", "IndexesTokenFactory", "Creator", "collections.MultiIndex[string,string,storeVType]", StoreBacked);
+  ("x/tokenfactory/keeper", "Keeper", "accountKeeper", "tftypes.AccountKeeper", Immutable);
+  ("x/tokenfactory/keeper", "Keeper", "bankKeeper", "tftypes.BankKeeper", Immutable);
+  ("x/tokenfactory/keeper", "Keeper", "cdc", "codec.BinaryCodec", Immutable);
+  ("x/tokenfactory/keeper", "Keeper", "communityPoolKeeper", "tftypes.CommunityPoolKeeper", Immutable);
+  ("x/tokenfactory/keeper", "Keeper", "storeKey", "storetypes.StoreKey", Immutable);
+  ("x/tokenfactory/keeper", "Keeper", "sudoKeeper", "sudokeeper.Keeper", Immutable);
+  ("x/tokenfactory/keeper", "StoreAPI", "Denoms", "collections.IndexedMap[storePKType,storeVType,IndexesTokenFactory]", StoreBacked);
+  ("x/tokenfactory/keeper", "StoreAPI", "ModuleParams", "collections.Item[tftypes.ModuleParams]", StoreBacked);
+  ("x/tokenfactory/keeper", "StoreAPI", "bankKeeper", "tftypes.BankKeeper", Immutable);
+  ("x/tokenfactory/keeper", "StoreAPI", "creator", "collections.KeySet[storePKType]", StoreBacked);
+  ("x/tokenfactory/keeper", "StoreAPI", "denomAdmins", "collections.Map[storePKType,tftypes.DenomAuthorityMetadata]", StoreBacked)
 ].
 
-(* directories whose package-level variables are compiled-contract artefacts, CLI or test helpers *)
-Definition artefact_dirs : list string := ["x/evm/embeds"; "x/evm/embeds/gen-abi"; "x/evm/evmtest"; "x/evm/cli"].
-
-(* all other package-level variables of x/evm: constants in disguise (addresses, registered errors, codecs, big.Int constants, the isMutation table) *)
+(* package-level variables that are assigned outside init / constructors or are sync / atomic objects; reviewed:
+   moduleErrorCodeIdx is the running error-code counter bumped by registerError while the package initialises its
+   sentinel errors, never afterwards *)
 Definition var_table : list (string * string * string) := [
-  ("x/evm/precompile", "PrecompileAddr_FunToken", "");
-  ("x/evm/precompile", "PrecompileAddr_Oracle", "");
-  ("x/evm/precompile", "PrecompileAddr_Wasm", "");
-  ("x/evm/precompile", "isMutation", "map[PrecompileMethod]bool");
-  ("x/evm/statedb", "emptyCodeHash", "");
-  ("x/evm", "AminoCdc", "");
-  ("x/evm", "BASE_FEE_MICRONIBI", "");
-  ("x/evm", "BASE_FEE_WEI", "");
-  ("x/evm", "DefaultPriorityReduction", "");
-  ("x/evm", "EVM_MODULE_ADDRESS", "gethcommon.Address");
-  ("x/evm", "EVM_MODULE_ADDRESS_NIBI", "sdk.AccAddress");
-  ("x/evm", "EmptyCodeHash", "");
-  ("x/evm", "ErrInvalidAccount", "");
-  ("x/evm", "ErrInvalidAmount", "");
-  ("x/evm", "ErrInvalidBaseFee", "");
-  ("x/evm", "ErrInvalidGasCap", "");
-  ("x/evm", "ErrInvalidGasFee", "");
-  ("x/evm", "ErrInvalidGasPrice", "");
-  ("x/evm", "ErrInvalidRefund", "");
-  ("x/evm", "ErrInvalidState", "");
-  ("x/evm", "ErrZeroAddress", "");
-  ("x/evm", "KeyPrefixBzAccState", "");
-  ("x/evm", "amino", "")
+  ("x/tokenfactory/types", "moduleErrorCodeIdx", "uint32")
 ].
 
 Definition str4_eqb (a b : string * string * string * string) : bool :=
@@ -126,9 +136,10 @@ Definition str3_eqb (a b : string * string * string) : bool :=
       foreign structs), or when the field is assigned outside constructors (New… / Precompile… / Init… / init);
       plain values (string, bool, numbers, byte arrays, gethcommon.Address / Hash), function values and fields whose
       type is a local struct (whose own fields are inventoried) are immutable by construction;
-    - a package-level variable needs one when it is reference-like (anything but: error values made by errors.New /
-      fmt.Errorf / errorsmod.Register, basic literals, function literals, address / hash values) or assigned outside
-      init; variables of the artefact / CLI / test-helper directories are not part of the node's execution paths.
+    - a package-level variable needs one when it is assigned (also through an index or a dereference) outside init /
+      constructors, or is a sync / atomic object; numbers shared through a variable and changed IN PLACE are the business
+      of [inplace_sites] / [var_aliases] (obligation C09_no_unreviewed_aliasing); variables of artefact / CLI / simulation
+      / test-helper directories are not inventoried at all.
     Type aliases, new helper functions, per-call structs, sentinel errors, constants never need an entry. *)
 Definition reference_kinds : list string := ["ptr"; "map"; "slice"; "chan"; "sync"; "named"].
 
@@ -140,8 +151,7 @@ Definition field_known (f : string * string * string * string * string * bool) :
   negb (field_needs_entry f) || existsb (fun e => str4_eqb (d, st, fl, ty) (fst e)) field_table.
 
 Definition var_needs_entry (v : string * string * string * string * bool) : bool :=
-  let '(d, _, _, kind, assigned) := v in
-  negb (existsb (String.eqb d) artefact_dirs) && (String.eqb kind "ref" || assigned).
+  let '(_, _, _, kind, assigned) := v in String.eqb kind "sync" || assigned.
 
 Definition var_known (v : string * string * string * string * bool) : bool :=
   let '(d, n, _, _, _) := v in
